@@ -875,6 +875,15 @@ class Harness(object):
         self.cur = {k: v for k, v in got.items()}
         for k in set(before) | set(got):
             self.hist.setdefault(k, []).append((self.tick, copy.deepcopy(got.get(k))))
+        # whether the (unacknowledged) write got as far as dropping the key's expiry is as open as its value: the
+        # model takes over what the server holds for the key(s) being written
+        for k in set(before) | set(new) | set(got):
+            if before.get(k) != new.get(k) or k == op.get("k") or k == op.get("k2"):
+                srv = self.server.expiry.get(self.rkey(k))
+                if srv is None or k not in got:
+                    self.expiry.pop(k, None)
+                else:
+                    self.expiry[k] = srv
         # pending invalidations of the dead client are gone with it; other clients keep theirs
 
     def would_be(self, op, before):
